@@ -21,9 +21,9 @@ CLAIMED = {
         note="x86-64 engines and Naive only (Neon port not built); sizes <= 8; pshufb models validated by the known-answer harnesses; mul equality via C15's arbitrary-row proofs + z3 T3.",
         design="6/C03, 11.4", technique=KANI + "; engine-vs-engine miters on symbolic buffers"),
     "C04": dict(
-        text="Layout (insert/undo inverse, documented placement, exact sizes) for all slots of shard sizes {2,4,30,62,64,66,126,128,130}; slot independence through the real encoders/decoders over the lane-wise contract engine with every other byte of every shard arbitrary.",
-        note="SpecEngine applied lane by lane; real engines' lane locality from C15/C03; sizes > 130 outside.",
-        design="6/C04, 11.4", technique=KANI + "; symbolic junk in all other slots"),
+        text="Layout (insert/undo inverse, documented placement, exact sizes) for all slots of shard sizes {2,4,30,62,64,66,126,128,130}; insert/undo inverse over multi-shard ranges (4-9 recovery shards, 1-3 blocks per shard, fully symbolic shard); slot independence through the real encoders/decoders over the lane-wise contract engine with every other byte of every shard arbitrary.",
+        note="SpecEngine applied lane by lane; real engines' lane locality from C15/C03; sizes > 130 outside (layout harnesses up to 322); decoder-side undo over ranges >= 4 shards not run (same Shards function as the encoder side).",
+        design="6/C04, 11.4, 11.9", technique=KANI + "; symbolic junk in all other slots"),
     "C05": dict(
         text="2-safety by adversarial stale memory: under the poison hook every byte of working memory that survives a reset / cross-rate hand-over is nondeterministic, and the following round must still equal the specification; round-drop-round on fully symbolic first-round data; state after adds+reset equals a fresh codec's state.",
         note="poison hook (verif-hooks) in Shards::resize; SpecEngine; dedicated codecs (default codec's reset is the same calls: C09); bounded histories.",
@@ -69,9 +69,9 @@ CLAIMED = {
         note="eval_poly end to end and the fwht loop schedule are NOT decided (65536-point transforms); sizes <= 8; composition steps outside the solver.",
         design="6/C15, 11.4", technique=KANI + " and z3 (QF_UFBV) over tables dumped from the real initialisers"),
     "C17": dict(
-        text="Pointer and capacity stability of the working space and the received bitmap over rounds, non-growing resets and cross-rate hand-over (12 configuration pairs x encoder/decoder), growth only when the need exceeds the held capacity.",
+        text="Pointer and capacity stability of the working space and the received bitmap over rounds, non-growing resets and cross-rate hand-over (12 configuration pairs x encoder/decoder) and over chains of 3-4 resets on one object that shrink and grow again inside the capacity held (4 chains x encoder/decoder), growth only when the need exceeds the held capacity.",
         note="decided as 'buffers keep address and capacity' because allocator calls cannot be counted under Kani; temporary allocations would escape.",
-        design="6/C17, 11.4", technique=KANI + "; pointer/capacity observation through hook views"),
+        design="6/C17, 11.4, 11.9", technique=KANI + "; pointer/capacity observation through hook views"),
 }
 
 NOT_YET = {
